@@ -8,7 +8,8 @@ import XpmVerif.Proofs.SchedFinal
     well-formed events (`SchedFinal.Reachable`: any workload, any schedule, any token table, no bound).
     Each theorem names the repair flags it needs; `scheduler_flags` says the source has all three. -/
 namespace XpmVerif.C06
-open XpmVerif.Sched XpmVerif.SchedFinal
+open XpmVerif.Sched hiding Reachable flOK submitPre submitPost sumTo
+open XpmVerif.SchedFinal
 
 /-- obligation on the current source: the three scheduler repairs are present. -/
 theorem scheduler_flags : Gen.schedFlags = { readyGuarded := true, resubmitRegisters := true, abortRechecks := true } := by decide
@@ -139,6 +140,111 @@ theorem waiter_returns_iff {fl : Flags} (hg : fl.readyGuarded = true) (hf : fl.r
     · intro hx; rw [hw] at hx; rcases hx with hx | hx <;> cases hx
     · intro hx; omega
 
+/-- `unfinished_counts` / `waiter_returns_only_when_all_final` are false without `resubmitRegisters` (finding F4):
+    a failed job is re-submitted; `wait()` raises while the re-submitted job is still in `doneHandler`, and
+    `unfinished` ends at −1. -/
+theorem wait_returns_early_without_resubmitRegisters :
+    let fl : Flags := { readyGuarded := true, resubmitRegisters := false, abortRechecks := true }
+    let a : Ev := .submit 0 [] 2 false
+    let b : Ev := .submit 0 [] 1 false
+    let evs : List Ev := [a, .step, .deliver 0, .step, .deliver 0, .step, .deliver 0, b, .step, .deliver 1, .step,
+      .deliver 0, .step, .deliver 0, .step, .deliver 0, .step, .wait, .deliver 0, .step]
+    ((evs.foldl (St.apply fl) (St.init [])).waiter = .raised ∧
+     ((evs.foldl (St.apply fl) (St.init [])).jobs 1).pc = .doneHandler ∧
+     ((evs ++ [Ev.step]).foldl (St.apply fl) (St.init [])).unfinished = -1) := by decide
+
+/-! ### deadlock freedom (stretch goal) and the invariants behind it -/
+
+/-- invariant B (`waiting_has_cause`): a job asleep on its event (no wake-up queued) is WAITING and has at least one
+    dependency that is not OK.  Needs `readyGuarded` and `abortRechecks`. -/
+theorem waiting_has_cause {fl : Flags} (hg : fl.readyGuarded = true) (ha : fl.abortRechecks = true)
+    {totals : List Nat} {s : St} (h : Reachable fl totals s) (j : Nat) (hs : (s.jobs j).sleeping = true) :
+    (s.jobs j).pc = .evtWait ∧ (s.jobs j).event = false ∧ (s.jobs j).state = .waiting ∧ 0 < (s.jobs j).unsat ∧
+    ∃ i, i < (s.jobs j).deps.length ∧ (depAt (s.jobs j) i).cur = .wait := by
+  have hE := reachable_invE hg ha h
+  have hc := hE.c.a.ctl j
+  have hpc : (s.jobs j).pc = .evtWait := by
+    apply pcKind_two
+    have := hc.2.1
+    simp only [slN, hs, if_true] at this
+    by_cases e : pcKind (s.jobs j).pc = 2
+    · exact e
+    · simp [e] at this
+  have hq := (hE.q j).1
+  have hev := hq.se hs
+  have hw := hq.evtClear hpc hev
+  have hcnt := (hE.c.d.recs j).counter (by rw [hw]; intro e; cases e)
+  have hne := hq.waitUnsat hw
+  have hpos : 0 < cntBad (s.jobs j).deps := by
+    have := cntBad_nonneg (s.jobs j).deps
+    omega
+  obtain ⟨i, hi, hci⟩ := cntBad_pos _ hpos
+  refine ⟨hpc, hev, hw, by omega, i, hi, ?_⟩
+  have hnf := hq.waitNoFail hw i hi
+  cases hcur : (depAt (s.jobs j) i).cur
+  · rfl
+  · exact absurd hcur hci
+  · exact absurd hcur hnf
+
+/-- invariant G: a job holds dependency locks only between a start and the lock-release segment that follows
+    (so a holder always has a helper thread or its callback pending).  Needs `readyGuarded`, `abortRechecks`. -/
+theorem holder_has_thread {fl : Flags} (hg : fl.readyGuarded = true) (ha : fl.abortRechecks = true)
+    {totals : List Nat} {s : St} (h : Reachable fl totals s) (j : Nat) (hh : (s.jobs j).held ≠ []) :
+    (s.jobs j).pc = .lockExitAbort ∨ (s.jobs j).pc = .lockExitRun ∨ (s.jobs j).pc = .codeWait :=
+  ((reachable_invE hg ha h).q j).2 hh
+
+/-- invariant C (`stale_wait_has_notification`, tokens): a registered token dependency recorded as WAIT either cannot be
+    satisfied now, or a check of it is queued.  Needs `readyGuarded`, `abortRechecks`. -/
+theorem no_lost_token_notification {fl : Flags} (hg : fl.readyGuarded = true) (ha : fl.abortRechecks = true)
+    {totals : List Nat} {s : St} (h : Reachable fl totals s) (j i t c : Nat)
+    (hs : (s.jobs j).state ≠ .unscheduled) (hi : i < (s.jobs j).deps.length)
+    (ho : (depAt (s.jobs j) i).origin = .tok t c) (hw : (depAt (s.jobs j) i).cur = .wait) :
+    s.avail t < c ∨ Cb.check j i ∈ s.ready ∨ Cb.notifyCheck j i ∈ s.ready :=
+  (reachable_invG hg ha h).nolost.tokWait j i t c ⟨hs, hi, trivial⟩ (by simp) ho hw
+
+/-- invariant D (jobs): a registered job dependency recorded as WAIT whose origin has returned has a check queued.
+    Needs `readyGuarded`, `abortRechecks`. -/
+theorem no_lost_job_notification {fl : Flags} (hg : fl.readyGuarded = true) (ha : fl.abortRechecks = true)
+    {totals : List Nat} {s : St} (h : Reachable fl totals s) (j i o : Nat) (r : JS)
+    (hs : (s.jobs j).state ≠ .unscheduled) (hi : i < (s.jobs j).deps.length)
+    (ho : (depAt (s.jobs j) i).origin = .job o) (hw : (depAt (s.jobs j) i).cur = .wait)
+    (hf : (s.jobs o).pc = .finished r) : Cb.check j i ∈ s.ready ∨ Cb.notifyCheck j i ∈ s.ready :=
+  (reachable_invG hg ha h).nolost.jobWait j i o r ⟨hs, hi, trivial⟩ (by simp) ho hw hf
+
+/-- every job dependency points to an earlier job that was scheduled (a duplicate submission is replaced by the job
+    that stands for it).  Needs `readyGuarded`, `resubmitRegisters`. -/
+theorem dependencies_scheduled {fl : Flags} (hg : fl.readyGuarded = true) (hf : fl.resubmitRegisters = true)
+    {totals : List Nat} {s : St} (h : Reachable fl totals s) (j i o : Nat) (hi : i < (s.jobs j).deps.length)
+    (ho : (depAt (s.jobs j) i).origin = .job o) : o < j ∧ (s.jobs o).pc ≠ .none :=
+  ⟨(reachable_invS h).acyclic j i o hi ho, (reachable_invH hg hf h).oe.origSch j i o hi ho⟩
+
+/-- deadlock freedom (`quiescent_all_final`): in a reachable state with an empty callback queue and no pending helper
+    thread, every scheduled job has returned, `unfinished = 0`, every token is full and nobody holds a lock —
+    provided no job asks for more units of a token than the token has (`TokFit`; such a job waits forever in the real
+    scheduler too).  Needs all three flags.  (The token part uses the capacity invariant of C08, `Proofs/SchedCap`.)
+    Not covered: termination (no livelock of aborted starts), see DESIGN `every_fair_run_finite`. -/
+theorem quiescent_all_final {fl : Flags} (hg : fl.readyGuarded = true) (hf : fl.resubmitRegisters = true)
+    (ha : fl.abortRechecks = true) {totals : List Nat} {s : St} (h : Reachable fl totals s)
+    (hr : s.ready = []) (ht : s.threads = []) (hfit : TokFit s) :
+    AllFinal s ∧ s.unfinished = 0 ∧ (∀ t, s.avail t = s.total t) ∧ (∀ j, (s.jobs j).held = []) := by
+  have hall := quiescent_final hg hf ha h hr ht hfit
+  have hc := (reachable_invB hg hf h).count
+  unfold CountC at hc
+  rw [(actN_zero_iff s).2 hall] at hc
+  exact ⟨hall, by simpa using hc, (quiescent_tokens_full h hr ht).1, (quiescent_tokens_full h hr ht).2⟩
+
+/-- `quiescent_all_final` is false without `abortRechecks` (finding F5): two jobs, one token of 1; after an aborted
+    start the second job sleeps forever although the token is free. -/
+theorem quiescent_hang_without_abortRechecks :
+    let fl : Flags := { readyGuarded := true, resubmitRegisters := true, abortRechecks := false }
+    let a : Ev := .submit 0 [.tok 0 1] 0 false
+    let b : Ev := .submit 1 [.tok 0 1] 0 false
+    let evs : List Ev := [a, b, .deliver 0, .step, .step, .deliver 1, .deliver 0, .step, .step, .deliver 0, .step,
+      .deliver 1, .step, .deliver 0, .step, .step, .step, .wait, .step]
+    let s := evs.foldl (St.apply fl) (St.init [1])
+    (s.ready = [] ∧ s.threads = [] ∧ (s.jobs 1).pc = .evtWait ∧ (s.jobs 1).sleeping = true ∧
+     (s.jobs 1).unsat = 0 ∧ s.avail 0 = 1 ∧ s.unfinished = 1 ∧ s.waiter = .sleeping) := by decide
+
 /-! Hypotheses are satisfiable: a concrete reachable state (flags all true) with a job that returned DONE after one
     launch, one that returned ERROR because its dependency failed (never launched), and a waiter that raised. -/
 section examples
@@ -164,6 +270,20 @@ example : ((runEvs flOK [] exEvs).jobs 0).pc = .finished .error
 /-- a micro-state inside a `submit` event in which the waiter callback runs. -/
 example : MReach flOK [] (St.steps flOK (submitPre (runEvs flOK [] [.wait]) 10 [] 0 false) 1) :=
   .inSubmit 10 [] 0 false 1 (reachable_runEvs [.wait] (by decide)) (by intro o ho; cases ho) (by decide)
+
+/-- a quiescent reachable state with token contention (one aborted start on the way): the hypotheses of
+    `quiescent_all_final` hold, both jobs ran once, the waiter returned. -/
+def exTok : List Ev :=
+  [.submit 10 [.tok 0 2] 0 false, .submit 11 [.tok 0 2] 0 false, .wait, .step, .step, .deliver 0, .step, .deliver 0,
+   .step, .deliver 0, .step, .deliver 0, .step, .deliver 0, .step, .step, .step, .step, .deliver 0, .step, .step,
+   .deliver 0, .step, .deliver 0, .step, .deliver 0, .step, .step, .step, .deliver 0, .step, .step]
+
+example : Reachable flOK [3] (runEvs flOK [3] exTok) := reachable_runEvs exTok (by decide)
+example : TokFit (runEvs flOK [3] exTok) := tokFit_runEvs flOK [3] exTok (by decide)
+example : (runEvs flOK [3] exTok).ready = [] ∧ (runEvs flOK [3] exTok).threads = []
+    ∧ ((runEvs flOK [3] (exTok.take 10)).jobs 1).pc = .lockExitAbort
+    ∧ ((runEvs flOK [3] exTok).jobs 0).pc = .finished .done ∧ ((runEvs flOK [3] exTok).jobs 1).pc = .finished .done
+    ∧ (runEvs flOK [3] exTok).waiter = .returned ∧ (runEvs flOK [3] exTok).avail 0 = 3 := by decide
 
 end examples
 
